@@ -28,6 +28,19 @@ def evalCap : Nat := 8
 
 def checkEval (op : String) (args res : List String) : Verdict :=
   match op, args, res with
+  | "keep", [before], [after] =>
+    -- the assignment after a query: every value still well-formed and still the same number
+    match pAsg? before, pAsg? after with
+    | some b, some a =>
+      if b.length ≠ a.length then .viol "ev/assignment-changed" "number of assigned variables changed" else
+      match asgOperandsOk a with
+      | some m => .viol "state/operand-repr" s!"after the query: {m}"
+      | none =>
+        let judged := (b.zip a).map (fun p => if p.1.1 ≠ p.2.1 then some false else (Val.cmp p.1.2 p.2.2).map (· == 0))
+        if judged.any (· == some false) then .viol "ev/assignment-changed" s!"a query changed the assignment: {before} became {after}"
+        else if judged.any (·.isNone) then .skip "cmp out of fuel"
+        else .ok "ev/keep"
+    | _, _ => .skip "parse"
   | "sgn", [ps, as], [s] =>
     match pPolyRaw? ps, pAsg? as, pInt? s with
     | some raw, some av, some s =>
@@ -249,6 +262,29 @@ def checkEval2 (op : String) (args res : List String) : Verdict :=
           | none => .skip "cmp out of fuel"
           | some true => .ok tag
           | some false => .viol s!"ev/rfs/{c}" s!"root-constraint set differs: exact {want.map showSInt} over {rs.length} roots"
+    | _, _, _, _, _, _ => .skip "parse"
+  | "rcons", [ps, ks, cs, as, ys], [b] =>
+    -- lp_polynomial_root_constraint_evaluate with the main variable assigned to `ys`
+    match pPolyRaw? ps, pNat? ks, pNat? cs, pAsg? as, pVal? ys, pInt? b with
+    | some raw, some k, some c, some av, some yv, some b =>
+      match asgToZ av, yv.toZ? with
+      | some a, some y =>
+        let p := MPoly.normalize none raw
+        match Eval.rootsUnder p yVar a rootsCap with
+        | none => .skip "roots inconclusive (size cap / fuel)"
+        | some rs =>
+          match rs[k]? with
+          | none =>
+            let tag := s!"ev/rcons/{c}/fewer-roots"
+            if b = 0 then .ok tag else .viol tag s!"true although only {rs.length} roots exist (index {k})"
+          | some r =>
+            match Alg.cmp y.a r with
+            | none => .skip "cmp out of fuel"
+            | some w =>
+              let tag := s!"ev/rcons/{c}/{if w = 0 then "at-root" else "off-root"}"
+              if (b ≠ 0) = Eval.consistent c w then .ok tag
+              else .viol tag s!"got {b}, the value compares {w} with root {k} of {rs.length}"
+      | _, _ => .skip "infinite value"
     | _, _, _, _, _, _ => .skip "parse"
   | _, _, _ => checkEval op args res
 
